@@ -12,6 +12,7 @@
         wire = <sent at>,<computed at>,<remaining ticks>,<header cps>   (or <sent at>,-,-,- )
    SERVER
      S <arrival bits-hex> <n> <value cps>{n} <dur bits-hex> <fin> <cancel> <trailers_first 0|1>
+       <reply path suspends 0|1>
        fin = ret | other | grpc | timeout;  cancel = h | s:<extra bits-hex>:<fin>
      -> <status> <started 0|1> <timer bits|-> <cancel_at bits|-> <end_at bits>
 *)
@@ -100,14 +101,14 @@ let handle = function
   | "S" :: a :: n :: rest ->
     let (vals, rest) = take (int_of_string n) rest [] in
     (match rest with
-     | [dur; fin; cancel; tf] ->
+     | [dur; fin; cancel; tf; rs] ->
        let ck = match String.split_on_char ':' cancel with
          | ["h"] -> CHonour
          | ["s"; extra; f] -> CSwallow (fb extra, fin_of f)
          | _ -> failwith "cancel" in
        let h = { h_dur = fb dur; h_fin = fin_of fin; h_cancel = ck; h_trailers_first = (tf = "1") } in
        let hs = List.map (fun v -> (grpc_timeout_name, cps_of_string v)) vals in
-       let o = serve (fb a) hs h in
+       let o = serve (fb a) hs h (rs = "1") in
        Printf.sprintf "%s %s %s %s %s" (status_str o.o_status) (if o.o_started then "1" else "0")
          (obf o.o_timer) (obf o.o_cancel_at) (bf o.o_end_at)
      | _ -> failwith "server line")
